@@ -161,9 +161,11 @@ func (s *session) delete() error {
 		}
 		s.log.Info("Session cleanup complete",
 			slog.Int("keys-deleted", len(deletes)))
-		if len(keys) == 0 || (headOffset != wal.InvalidOffset && cleanupOffset == headOffset+1) {
+		if headOffset != wal.InvalidOffset && cleanupOffset == headOffset+1 {
 			return nil
 		}
+		// Otherwise something may have been written between the read and the cleanup, also when the
+		// session owned nothing at the time of the read: look again (an empty listing ends the loop)
 	}
 }
 
